@@ -1166,7 +1166,14 @@ func (x *Unit) havocLV(st *State, lv *LV) {
 
 // atCall handles "at call NAME[#k] assert|assume EXPR" clauses of the current unit's block.
 func (x *Unit) atCall(st *State, pc *preparedCall, shortName, funText string) {
-	b := x.eng.blockFor(x.pkg.PkgPath, x.fr.loopBase)
+	// the clauses of the innermost enclosing function (or literal) that has a contract block: code of literals
+	// without a block of their own (deferred closures, callbacks run inline) belongs to the enclosing function
+	var b *Block
+	base := x.fr.loopBase
+	for fr := x.fr; fr != nil && b == nil; fr = fr.parent {
+		base = fr.loopBase
+		b = x.eng.blockFor(x.pkg.PkgPath, fr.loopBase)
+	}
 	if b == nil {
 		return
 	}
@@ -1183,7 +1190,7 @@ func (x *Unit) atCall(st *State, pc *preparedCall, shortName, funText string) {
 	if len(matched) == 0 {
 		return
 	}
-	ordKey := x.fr.loopBase + "|" + funText
+	ordKey := base + "|" + funText
 	ord := x.callOrd[ordKey]
 	x.callOrd[ordKey] = ord + 1
 	names := map[string]Val{}
